@@ -1,7 +1,7 @@
 (* Model.v — the executable interface (instantiated at Gaussian integers) that is
    extracted to OCaml and run against the implementation. Definitions only. *)
 From Coq Require Import NArith ZArith List Bool Arith Lia.
-From FQE Require Import Car Fock GaussZ Bits Addr Maps.
+From FQE Require Import Car Fock GaussZ Bits Addr Maps Denote.
 Import ListNotations.
 
 (* (alpha string, beta string) <-> determinant in operator-position order.
@@ -15,11 +15,8 @@ Definition strs_of (norb : nat) (d : det) : N * N :=
 Definition pos_of (norb : nat) (beta : bool) (i : nat) : nat :=
   (if beta then norb else 0) + (norb - 1 - i).
 
-(* an operator of the harness: (beta?, orbital, dagger?) *)
-Definition hop := (bool * nat * bool)%type.
 Definition lop_of (norb : nat) (o : hop) : lop :=
   match o with (beta, i, dg) => mkop (pos_of norb beta i) dg end.
-Definition hterm := (gz * list hop)%type.
 
 Definition gvec := vec gz.
 Definition gcoeff := coeff gz gz0 gzadd.
@@ -66,3 +63,9 @@ Definition m_cnt_below := cnt_below.
 Definition m_popcount := popcount.
 Definition m_occ := occ.
 Definition m_annih := annih_map.
+
+(* Hamiltonian data -> polynomial -> action *)
+Definition m_apply_h (norb : nat) (es : list hentry) (v : list (N * N * gz)) (basis : list (N * N)) : list gz :=
+  m_apply norb (denote_all norb es) v basis.
+Definition m_matel_h (norb : nat) (es : list hentry) (x y : list (N * N * gz)) : gz :=
+  m_matel norb (denote_all norb es) x y.
